@@ -115,6 +115,36 @@ func encodeAll(cs []bcol, rows, rev int) (canon []byte, alts []map[string]any, e
 		return nil, nil, err
 	}
 	alts = append(alts, map[string]any{"mode": "WriteBlock+Flush+stale-capacity", "prefixKept": true, "equal": bytes.Equal(sw8.b, canon)})
+	// the columns alone, written through a writer whose staging buffer held bytes before the writer existed: the bytes
+	// come out in the order they were put in, and each column as EncodeColumn gives it
+	if rows > 0 {
+		_, in9 := buildCols(cs)
+		_, in10 := buildCols(cs)
+		pre := []byte{0xEE, 0xDD, 0xCC}
+		sw9 := &sliceWriter{}
+		w9 := proto.NewWriter(sw9, &proto.Buffer{Buf: append([]byte(nil), pre...)})
+		want := append([]byte(nil), pre...)
+		for i := range in9 {
+			if p, ok := in9[i].Data.(proto.Preparable); ok {
+				if err := p.Prepare(); err != nil {
+					return nil, nil, err
+				}
+			}
+			if p, ok := in10[i].Data.(proto.Preparable); ok {
+				if err := p.Prepare(); err != nil {
+					return nil, nil, err
+				}
+			}
+			in9[i].Data.WriteColumn(w9)
+			var eb proto.Buffer
+			in10[i].Data.EncodeColumn(&eb)
+			want = append(want, eb.Buf...)
+		}
+		if _, err := w9.Flush(); err != nil {
+			return nil, nil, err
+		}
+		alts = append(alts, map[string]any{"mode": "WriteColumn+prefilled-writer", "prefixKept": len(sw9.b) >= 3 && bytes.Equal(sw9.b[:3], pre), "equal": bytes.Equal(sw9.b, want)})
+	}
 	return canon, alts, nil
 }
 
